@@ -16,7 +16,8 @@ SPT = "parser::SmlParseTlf"
 
 
 def crc_fact(ip, st, crc_val, region_root, region_start, region_n):
-    """the path entails crc_val == swap_bytes(checksum(region)) ; returns (ok, why)"""
+    """the path entails crc_val == swap_bytes(checksum(region)) ; returns (ok, why).
+    region_start None: only the end of the region is compared -- region_n is then the absolute offset where it must end"""
     # find a symbol d with def swap_bytes(c) where c has origin crc_checksum over the region, and st |- crc_val == d
     for s in list(st.rng) + [x for f in st.facts for x in f.syms()]:
         d = ip.tab.defn(s)
@@ -31,12 +32,16 @@ def crc_fact(ip, st, crc_val, region_root, region_start, region_n):
         if not st.prove_eq0(crc_val - Lin.sym(s)):
             continue
         _, root, steps, start, n = o
+        if region_root is None:
+            return True, ""         # existence of the gate only (used when the message start is not known to the caller)
         if root != region_root:
             return False, "checksum computed over a different buffer"
-        if not st.prove_eq0(start - region_start):
+        if region_start is not None and not st.prove_eq0(start - region_start):
             return False, "checksum region does not start at the first byte of the message (%s vs %s)" % (st.describe(start), st.describe(region_start))
-        if not st.prove_eq0(n - region_n):
+        if region_start is not None and not st.prove_eq0(n - region_n):
             return False, "checksum region does not end where the checksum field starts (%s vs %s)" % (st.describe(n), st.describe(region_n))
+        if region_start is None and not st.prove_eq0(start + n - region_n):
+            return False, "checksum region does not end where the checksum field starts"
         return True, ""
     # the same equality with the byte swap applied to the other side: swap_bytes(parsed) == checksum(region)
     cands = list(st.rng) + [x for f in st.facts for x in f.syms()]
@@ -49,12 +54,16 @@ def crc_fact(ip, st, crc_val, region_root, region_start, region_n):
             if not (isinstance(o, tuple) and o[0] == "crc_checksum") or not st.prove_eq0(Lin.sym(c) - Lin.sym(s)):
                 continue
             _, root, steps, start, n = o
+            if region_root is None:
+                return True, ""
             if root != region_root:
                 return False, "checksum computed over a different buffer"
-            if not st.prove_eq0(start - region_start):
+            if region_start is not None and not st.prove_eq0(start - region_start):
                 return False, "checksum region does not start at the first byte of the message (%s vs %s)" % (st.describe(start), st.describe(region_start))
-            if not st.prove_eq0(n - region_n):
+            if region_start is not None and not st.prove_eq0(n - region_n):
                 return False, "checksum region does not end where the checksum field starts (%s vs %s)" % (st.describe(n), st.describe(region_n))
+            if region_start is None and not st.prove_eq0(start + n - region_n):
+                return False, "checksum region does not end where the checksum field starts"
             return True, ""
     return False, "no established equality between the parsed checksum and swap_bytes(CRC_X25.checksum(..))"
 
@@ -320,7 +329,22 @@ def check_streaming_crc(ctx, F, A, X):
     pn = pn[0]
     where = (pn["span"]["file"], pn["span"]["line"], pn["def"])
     from ..engine import field_index
-    fi_in, fi_msg, fi_p = field_index(F, T, "input"), field_index(F, T, "msg_input"), field_index(F, T, "pending_list_entries")
+    try:
+        fi_in, fi_msg, fi_p = field_index(F, T, "input"), field_index(F, T, "msg_input"), field_index(F, T, "pending_list_entries")
+    except AnchorMissing as e:
+        # another encoding of the parser state: the gate is checked by the protocol simulation (existence of the gate after
+        # checksum field and end marker; the exact range needs the field-level rule)
+        from .streamsim import StreamSim
+        sim = StreamSim(F, A, X)
+        viols, stats = sim.run(crc_fact=crc_fact)
+        ctx.count("R-C04-CRC", stats["trailers_checked"])
+        ctx.cov["streaming_crc_rule"] = "field-level rule not applicable (%s); gate existence decided by simulation" % e
+        if stats["trailers_checked"] < 1:
+            ctx.violation("BELOW-FLOOR", "R-C04-CRC|streaming", where, "the simulation never reached a message trailer")
+        for key, msg in viols:
+            if key in ("crc",) or key.startswith("trailer"):
+                ctx.violation("R-C04-CRC", "streaming|" + key, where, msg)
+        return
     # a parser object in countdown class 1 with msg_input / input two slices of one buffer
     st = ip.new_state()
     slty = {"k": "ref", "mut": False, "to": {"k": "slice", "of": {"k": "int", "w": 8, "sg": False, "ptr": False, "s": "u8"}, "s": "[u8]"}, "s": "&[u8]"}
